@@ -2154,7 +2154,11 @@ class TagNode(_ElementWrappingNode, NodeBase):
 
             if len(candidates) == 0:
                 node_test = step.node_test
-                assert isinstance(node, TagNode)
+                if not isinstance(node, TagNode):
+                    raise InvalidOperation(
+                        "The root node doesn't match the first location step, and "
+                        "there can't be a second root."
+                    )
                 assert isinstance(node_test, NameMatchTest)
 
                 new_node = new_tag_node(
